@@ -44,6 +44,8 @@ structure Inner (σ Op Out : Type) where
   step : σ → Op → σ × Out
   addr : Op → String × String
   ack : Op → Out
+  /-- what the outbox layer answers when it rejects the operation itself (e.g. BadDigest) -/
+  rejected : Op → Out
 
 /-- What the outbox does with an accepted operation. -/
 structure Policy (σ Op : Type) where
@@ -51,6 +53,10 @@ structure Policy (σ Op : Type) where
   queues : σ → Op → Bool
   /-- the scopes a written-through operation waits for, in order -/
   scopes : Op → List Scope
+  /-- does the outbox layer's own validation fail for this operation (the supplied checksum does
+  not match the received body, the body cannot be read)? Such an operation is answered with an
+  error: it leaves no queued entry and never changes the inner storage. -/
+  rejects : Op → Bool
 
 structure St (σ Op : Type) where
   inner : σ
@@ -82,17 +88,24 @@ def flushN (I : Inner σ Op Out) : Nat → St σ Op → St σ Op
 def waitScope (I : Inner σ Op Out) (s : St σ Op) (sc : Scope) : St σ Op :=
   flushN I (needFor I sc s.queue) s
 
-/-- One accepted operation: the new state, the caller's result, and whether it was written through. -/
-def accept (I : Inner σ Op Out) (P : Policy σ Op) (s : St σ Op) (op : Op) : St σ Op × Out × Bool :=
+/-- One operation issued to the outbox: the new state, the caller's result, whether it was
+written through, and whether it was *accepted* (not answered with the outbox layer's own error).
+Mirrors `PutObject`: on the queue path the entry, its options and chunks and the validation share
+one transaction, so a rejection rolls the entry back; on the write-through path the caller waits
+first and the inner storage rejects the call without a trace. -/
+def accept (I : Inner σ Op Out) (P : Policy σ Op) (s : St σ Op) (op : Op) : St σ Op × Out × Bool × Bool :=
   if P.queues s.inner op then
-    ({ s with queue := s.queue ++ [op] }, I.ack op, false)
+    if P.rejects op then (s, I.rejected op, false, false)
+    else ({ s with queue := s.queue ++ [op] }, I.ack op, false, true)
   else
     let s1 := (P.scopes op).foldl (waitScope I) s
-    let r := I.step s1.inner op
-    ({ s1 with inner := r.1 }, r.2, true)
+    if P.rejects op then (s1, I.rejected op, true, false)
+    else
+      let r := I.step s1.inner op
+      ({ s1 with inner := r.1 }, r.2, true, true)
 
-/-- Log of accepted operations: operation, caller's result, written through? -/
-abbrev Log (Op Out : Type) := List (Op × Out × Bool)
+/-- Log of issued operations: operation, caller's result, written through?, accepted? -/
+abbrev Log (Op Out : Type) := List (Op × Out × Bool × Bool)
 
 def run (I : Inner σ Op Out) (P : Policy σ Op) (s : St σ Op) : List (Event Op) → St σ Op × Log Op Out
   | [] => (s, [])
@@ -100,7 +113,10 @@ def run (I : Inner σ Op Out) (P : Policy σ Op) (s : St σ Op) : List (Event Op
   | .accept op :: evs =>
     let r := accept I P s op
     let rest := run I P r.1 evs
-    (rest.1, (op, r.2.1, r.2.2) :: rest.2)
+    (rest.1, (op, r.2.1, r.2.2.1, r.2.2.2) :: rest.2)
+
+/-- The accepted operations of a log, in acceptance order. -/
+def acceptedOps (log : Log Op Out) : List Op := (log.filter (·.2.2.2)).map (·.1)
 
 /-- Drain: the worker replays everything. -/
 def drain (I : Inner σ Op Out) (s : St σ Op) : σ := (flushN I s.queue.length s).inner
@@ -111,12 +127,15 @@ def seqState (I : Inner σ Op Out) (t : σ) (ops : List Op) : σ := ops.foldl (f
 /-- The inner storage after the table has been replayed on top of it. -/
 def pending (I : Inner σ Op Out) (s : St σ Op) : σ := seqState I s.inner s.queue
 
-/-- The log agrees with the sequential execution from `t`: every written-through operation (every
-read in particular) returned what it returns when all operations accepted before it are applied in
-acceptance order. -/
+/-- The log agrees with the sequential execution from `t` of the *accepted* operations: every
+written-through accepted operation (every read in particular) returned what it returns when all
+operations accepted before it are applied in acceptance order; a rejected operation returned the
+rejection and does not take part in the sequential execution. -/
 def Agree (I : Inner σ Op Out) : σ → Log Op Out → Prop
   | _, [] => True
-  | t, (op, out, thr) :: rest => (thr = true → out = (I.step t op).2) ∧ Agree I (I.step t op).1 rest
+  | t, (op, out, thr, acc) :: rest =>
+    if acc then (thr = true → out = (I.step t op).2) ∧ Agree I (I.step t op).1 rest
+    else out = I.rejected op ∧ Agree I t rest
 
 /-- An operation is independent of a queued entry when the entry is outside all its wait scopes. -/
 def Indep (I : Inner σ Op Out) (P : Policy σ Op) (a e : Op) : Prop :=
